@@ -456,40 +456,78 @@ def r3_storage_framing(ctx):
                     'version >= 2', key='json-version')
 
 
+def _is_deep_normaliser(fn_node) -> bool:
+    """A function that maps tuples to lists recursively: tests for tuple and
+    calls itself / an inner function of itself on the items."""
+    names = {fn_node.name} | {x.name for x in ast.walk(fn_node)
+                              if isinstance(x, ast.FunctionDef)}
+    has_tuple_test = any(
+        isinstance(c, ast.Call) and call_name(c) == 'isinstance' and
+        len(c.args) == 2 and 'tuple' in unparse(c.args[1])
+        for c in ast.walk(fn_node))
+    recursive = False
+    for inner in [x for x in ast.walk(fn_node)
+                  if isinstance(x, ast.FunctionDef)]:
+        for c in ast.walk(inner):
+            if isinstance(c, ast.Call) and isinstance(c.func, ast.Name) and \
+                    c.func.id == inner.name:
+                recursive = True
+    return has_tuple_test and recursive
+
+
 def r4_json_closure(ctx):
+    """JSON has no tuples (and the codec applies to nested values too: the
+    lookups inside a stored Q, the items of `expressions`).  Every attribute
+    a signature class writes through serialize_to_signature() must be
+    compared by __eq__ in a JSON-stable way - both sides through a function
+    that maps tuples to lists *recursively* - otherwise the signature built
+    from the models and the one read back from the database never compare
+    equal.  (Converting top-level tuples in __init__ is not enough.)"""
     ctx.rule('R-C06.4')
     p = ctx.program
-    # classes that keep a deconstructed attrs dict and serialise it verbatim
+    sig_mod = p.module(SIG)
     n = 0
     for cname in CLASSES:
         cls = p.cls(SIG, cname)
         ser = cls.methods['serialize']
         init = cls.methods['__init__']
-        stores_attrs = any(is_self_attr(t, 'attrs')
-                           for a in walk_no_nested(init.node)
-                           if isinstance(a, ast.Assign) for t in a.targets)
-        verbatim = any(isinstance(c, ast.Call) and
-                       call_name(c) == 'serialize_to_signature' and c.args and
-                       is_self_attr(c.args[0], 'attrs')
-                       for c in walk_no_nested(ser.node))
-        if not (stores_attrs and verbatim):
+        eq = cls.methods.get('__eq__')
+        stored = []
+        for c in walk_no_nested(ser.node):
+            if isinstance(c, ast.Call) and \
+                    call_name(c) == 'serialize_to_signature' and c.args and \
+                    is_self_attr(c.args[0]):
+                stored.append(c.args[0].attr)
+        if not stored or eq is None:
             continue
         n += 1
-        normalises = any(
-            isinstance(c, ast.Call) and call_name(c) == 'isinstance' and
-            len(c.args) == 2 and 'tuple' in unparse(c.args[1])
-            for c in walk_no_nested(init.node)) and any(
-            isinstance(c, ast.Call) and call_name(c) == 'list'
-            for c in walk_no_nested(init.node))
-        if normalises:
-            ctx.ok(init, '%s.__init__ converts tuple attribute values to '
-                   'lists (what JSON will store)' % cname)
-        else:
-            ctx.finding(init, None, '%s keeps tuple attribute values from '
-                        'deconstruct() as they are; JSON stores them as '
-                        'lists, so the reloaded signature is unequal to the '
-                        'one built from the models (sibling IndexSignature '
-                        'normalises them)' % cname, key='tuple-not-normalised')
+        for attr in sorted(set(stored)):
+            ok = False
+            for c in walk_no_nested(eq.node):
+                if isinstance(c, ast.Call) and isinstance(c.func, ast.Name) \
+                        and c.func.id in sig_mod.functions and c.args and \
+                        any(is_self_attr(x, attr)
+                            for x in ast.walk(c.args[0])):
+                    if _is_deep_normaliser(
+                            sig_mod.functions[c.func.id].node):
+                        ok = True
+            if ok:
+                ctx.ok(eq, '%s.%s is compared in its stored (JSON) form, '
+                       'tuples mapped to lists recursively' % (cname, attr))
+            else:
+                shallow = any(
+                    isinstance(c, ast.Call) and call_name(c) == 'isinstance'
+                    and len(c.args) == 2 and 'tuple' in unparse(c.args[1])
+                    for c in walk_no_nested(init.node))
+                ctx.finding(eq, None, '%s.%s is written through '
+                            'serialize_to_signature() (JSON: tuples become '
+                            'lists, also inside nested values such as Q '
+                            'lookups) but __eq__ compares the raw values%s: '
+                            'a signature read back from the database is '
+                            'unequal to the one built from the models' % (
+                                cname, attr, ' (only top-level tuples are '
+                                'converted in __init__)' if shallow else ''),
+                            key='raw-compare-of-json-value:%s' % attr)
     ctx.floor('signature classes storing deconstructed attrs', n, 2)
     # iterable serializers whose item type JSON cannot represent
     ser_mod = p.module('serialization')
@@ -664,6 +702,71 @@ def r7_loader_type_accepted(ctx):
     ctx.floor('type-guarded marker tests in the reader dispatch', guards, 2)
 
 
+def r8_attribute_table_names_field_options(ctx):
+    """FieldSignature serialises every attribute it holds but deserialises
+    only the names listed in _ATTRIBUTE_DEFAULTS for the field type.  Every
+    name in that table must therefore be an option a Django field of that
+    type actually takes (a constructor parameter, read from the installed
+    Django source): a name that no field has is never recorded by
+    from_field(), and the real option it was meant to be is written by
+    serialize() and silently dropped by deserialize()."""
+    ctx.rule('R-C06.8')
+    import importlib.util
+    p = ctx.program
+    fs = p.cls(SIG, 'FieldSignature')
+    _o, table = fs.find_attr('_ATTRIBUTE_DEFAULTS')
+    if not isinstance(table, ast.Dict):
+        raise AnalysisError('R-C06.8: _ATTRIBUTE_DEFAULTS is not a dict '
+                            'literal')
+    params: Dict[str, Set[str]] = {}
+    for modname in ('django.db.models.fields',
+                    'django.db.models.fields.related'):
+        spec = importlib.util.find_spec(modname)
+        if spec is None or not spec.origin:
+            raise AnalysisError('R-C06.8: cannot locate %s' % modname)
+        with open(spec.origin, 'r', encoding='utf-8') as fp:
+            tree = ast.parse(fp.read())
+        for c in tree.body:
+            if isinstance(c, ast.ClassDef):
+                for m in c.body:
+                    if isinstance(m, ast.FunctionDef) and m.name == '__init__':
+                        a = m.args
+                        params[c.name] = {x.arg for x in a.posonlyargs +
+                                          a.args + a.kwonlyargs} - {'self'}
+    if 'Field' not in params:
+        raise AnalysisError('R-C06.8: django Field.__init__ not found')
+    n = 0
+    for k, v in zip(table.keys, table.values):
+        if not isinstance(v, ast.Dict):
+            continue
+        cls_name = 'Field' if const_str(k) == '*' else \
+            (dotted(k) or '').split('.')[-1]
+        allowed = set(params['Field']) | params.get(cls_name, set())
+        if cls_name in ('ForeignKey', 'OneToOneField'):
+            allowed |= params.get('ForeignKey', set()) | \
+                params.get('ForeignObject', set())
+        for name_node in v.keys:
+            name = const_str(name_node)
+            if name is None:
+                continue
+            n += 1
+            if name in allowed:
+                ctx.ok(fs.methods.get('deserialize') or
+                       ('django_evolution.signature', 'FieldSignature'),
+                       '%r is an option of django %s' % (name, cls_name))
+            else:
+                ctx.finding(('django_evolution.signature', 'FieldSignature'),
+                            name_node, '_ATTRIBUTE_DEFAULTS[%s] lists %r, '
+                            'which is not an option of django %s (no such '
+                            'constructor parameter): it is never recorded, '
+                            'and the field option it was meant to be is '
+                            'written by serialize() but dropped by '
+                            'deserialize()' % (
+                                unparse(k), name, cls_name),
+                            key='not-a-field-option:%s' % name)
+    ctx.floor('attribute names in _ATTRIBUTE_DEFAULTS', n, 10)
+
+
 def r6_presence_not_value(ctx):
     """Whether a stored attribute is loaded must depend on the key being
     present, never on its value (explicit None / False / 0 are values)."""
@@ -719,3 +822,4 @@ def run(ctx):
     r4_json_closure(ctx)
     r5_dispatch_symmetry(ctx)
     r7_loader_type_accepted(ctx)
+    r8_attribute_table_names_field_options(ctx)
